@@ -290,4 +290,17 @@ def replay(rp):
     b = run_fresh(calls[-1:])
     same = a["calls"][-1].get("result") == b["calls"][0].get("result")
     print("after history:", json.dumps(_brief(a["calls"][-1])), "\nfresh:", json.dumps(_brief(b["calls"][0])), "\nsame:", same)
-    return 0 if same else 1
+    bad = not same
+    for c, h in zip(calls, a["calls"]):
+        if not h.get("input_unmodified", True):
+            print("input dictionary modified by the call")
+            bad = True
+        sr = h.get("stiffness_run")
+        if sr:
+            d = tb._DEFAULTS()
+            o = c["indict"].get("options", {})
+            want_T, want_h = float(o.get("sim_time", d["sim_time"])), float(o.get("max_step_size", d["max_step_size"]))
+            print("stiffness test simulated to", sr["t_end"], "(expected", want_T, "), largest step requested", sr["h_max"], "(bound", want_h, ")")
+            if abs(sr["t_end"] - want_T) > 1e-9 * max(1.0, want_T) or sr["h_max"] > want_h * (1 + 1e-12):
+                bad = True
+    return 1 if bad else 0
